@@ -161,7 +161,7 @@ def gen_scenario(seed: int, algos: Sequence[str], envs: Optional[Sequence[str]] 
         sc["costs"] = [float(x) for x in np.round(rng.uniform(0.5, 3.0, size=m), 2)]
         sc["budget"] = float(rng.choice([0.0, 2.0, 6.0, 12.0]))
     if algo == "Auer":
-        sc["emp_beta"] = bool(rng.random() < 0.5)
+        sc["emp_beta"] = bool(rng.random() < 0.6)
     if algo == "NaiveElimination":
         sc["L"] = int(rng.choice([1, 2, 5, 12]))
     if algo == "VOGP_AD":
@@ -173,7 +173,9 @@ def gen_scenario(seed: int, algos: Sequence[str], envs: Optional[Sequence[str]] 
         sc["contraction"] = float(rng.choice([4, 32, 1024]))
         sc["noise_var"] = float(rng.choice([1e-3, 0.01, 0.1]))
     # ---- environment ---------------------------------------------------------------------
-    if algo in ("PaVeBa", "Auer"):
+    if algo == "Auer":
+        choices = ["real", "noise_adv", "real_sim", "real_sim"]
+    elif algo == "PaVeBa":
         choices = ["real", "noise_adv", "real_sim"]
     elif algo in ("PaVeBaGP", "PaVeBaPartialGP", "VOGP", "EpsilonPAL"):
         choices = ["post_adv", "post_adv", "real"]
@@ -189,7 +191,7 @@ def gen_scenario(seed: int, algos: Sequence[str], envs: Optional[Sequence[str]] 
     sc["byz"] = False if valid_only else bool(rng.random() < 0.25 and sc["env"] in ("post_adv", "noise_adv"))
     if sc["env"] == "real_sim":
         base = math.sqrt(sc["noise_var"])
-        sc["noise_sd"] = [float(base * f) for f in rng.choice([0.2, 1.0, 1.0, 3.0], size=K)]
+        sc["noise_sd"] = [float(base * f) for f in rng.choice([0.1, 0.3, 1.0, 1.0, 3.0, 6.0], size=K)]
     adv = {
         "gamma": float(rng.choice([0.4, 0.5, 0.7, 0.9])),
         "gamma_round": float(rng.choice([1.0, 0.9, 0.8])),
